@@ -126,6 +126,15 @@ def _r1(ctx):
                     skip = any(isinstance(s, ast.Continue) for s in (p.body if isinstance(n.ops[0], ast.NotEq) else p.orelse))
                     if skip:
                         good_cmp = n
+                if good_cmp is None:
+                    # the same decided by the control flow: when the names differ the candidate cannot be accepted any more
+                    # (the comparison may be one disjunct of a skip test, or the rest of the body nested under the equality)
+                    trues_ = [r_ for r_ in ast.walk(f.node) if isinstance(r_, ast.Return) and isinstance(r_.value, ast.Constant)
+                              and r_.value.value is True]
+                    lp_ = C.enclosing_loop(n)
+                    neq = "%s != %s" % (U(n.left), U(n.comparators[0]))
+                    if len(trues_) == 1 and lp_ is not None and C.cond_blocks(f, lp_, [neq], trues_[0]) is not None:
+                        good_cmp = n
         if good_cmp is not None:
             ctx.node_ok("R1", f, good_cmp, "identity test of store %s against the tracked name" % field)
         elif not mixed and any(isinstance(n, ast.Compare) and any(U(s).endswith("['name']") for s in [n.left] + n.comparators)
@@ -256,13 +265,19 @@ def _r3_r4(ctx):
                   "tracked register changes): %s" % (name, args), fd.qname, U(call))
     # write-back of the base ends the scan
     for kind in ("pre_indexed", "post_indexed"):
-        ifs = [n for n in ast.walk(loop) if isinstance(n, ast.If) and U(n.test).endswith("." + kind)
-               and isinstance(n.test, ast.Attribute)]
+        # a `break` that is taken where the destination is <kind> and its base is written by the scanned instruction (nested
+        # ifs or one conjunction), decided before the load test
         good = False
-        for i in ifs:
-            inner = [x for x in ast.walk(i) if isinstance(x, ast.If) and C.is_call_to(x.test, "is_written")
-                     and U(x.test.args[0]).endswith(".base") and any(isinstance(s, ast.Break) for s in x.body)]
-            if inner and cfg.dominates(i, ml):
+        for b_ in [x for x in ast.walk(loop) if isinstance(x, ast.Break) and C.enclosing_loop(x) is loop]:
+            nf = C.norm_fact_nodes(b_, stop=loop)
+            has_kind = any(pol and isinstance(e, ast.Attribute) and e.attr == kind for e, pol in nf)
+            has_wr = any(pol and C.is_call_to(e, "is_written") and e.args and U(e.args[0]).endswith(".base") for e, pol in nf)
+            others = [e for e, pol in nf if pol and not (isinstance(e, ast.Attribute) and e.attr == kind) and not C.is_call_to(e, "is_written")
+                      and not C.is_call_to(e, "isinstance")]
+            top = b_
+            while C.parent(top) is not loop and C.parent(top) is not None:
+                top = C.parent(top)
+            if has_kind and has_wr and not others and (cfg.dominates(top, ml) or any(C.in_subtree(ml, a_) for a_ in [top])):
                 good = True
         ctx.check(good, "R3", "overwrite of a %s store's base ends the scan before the load test" % kind,
                   fd.where(loop), "for a %s destination the scan does not stop when the base register is "
@@ -413,28 +428,32 @@ def _r6(ctx):
     adds = pm.find("%s[%s]['value'] += %s['value']" % (st, reg, chg), loop)
     ctx.check(len(adds) == 1, "R6", "plain change is added to the tracked value", f.where(loop),
               "the change's value is not added (`state[reg]['value'] += change['value']`)", f.qname, "value accumulation")
-    ren = [n for n in ast.walk(loop) if isinstance(n, ast.If) and U(n.test) in (
-        "%s['name'] != %s" % (chg, reg), "%s != %s['name']" % (reg, chg))]
+    flow = C.flow_of(f)
+    S = lambda e: U(flow.subst(e))
+    srcname = "%s['name']" % chg
+    ren = []
+    for n in ast.walk(loop):
+        if isinstance(n, ast.If) and isinstance(n.test, ast.Compare) and len(n.test.ops) == 1 and isinstance(n.test.ops[0], ast.NotEq) \
+                and {S(n.test.left), S(n.test.comparators[0])} == {srcname, reg}:
+            ren.append(n)
     if len(ren) != 1:
-        ctx.bad("R6", "rename branch", f.where(loop), "rename branch `if change['name'] != reg` not found", f.qname,
-                "rename branch")
+        ctx.judge(False, not any(srcname in S(x.test) for x in ast.walk(loop) if isinstance(x, ast.If)), "R6", "rename branch", f.where(loop),
+                  "rename branch `if change['name'] != reg` not found", f.qname, "rename branch")
         return
     r = ren[0]
-    body = [U(s) for s in r.body]
-    name_set = any(b == "%s[%s]['name'] = %s['name']" % (st, reg, chg) for b in body)
-    src_get = pm.find("M_s = %s.get(%s['name'], {'value': 0})" % (st, chg), r)
-    val_copy = bool(src_get) and any(b == "%s[%s]['value'] = %s['value']" % (st, reg, U(src_get[0][1]["M_s"])) for b in body)
-    unk_src = bool(src_get) and any(
-        isinstance(s, ast.If) and U(s.test) == "%s is None" % U(src_get[0][1]["M_s"])
-        and any(U(x) == "%s[%s] = None" % (st, reg) for x in s.body)
-        and any(isinstance(x, ast.Continue) for x in s.body) for s in r.body)
-    ctx.check(name_set, "R6", "rename records the source register's name", f.where(r),
-              "rename does not record the new name", f.qname, "rename name")
-    ctx.check(val_copy, "R6", "rename takes the source register's tracked value", f.where(r),
-              "rename does not start from the source register's tracked value (default 0)", f.qname, "rename value")
-    ctx.check(unk_src, "R6", "rename from an unknown source makes the register unknown", f.where(r),
-              "a rename from a register whose change is unknown does not make the target unknown", f.qname,
-              "rename unknown source")
+    src_state = "%s.get(%s, {'value': 0})" % (st, srcname)
+    name_set = any(isinstance(x, ast.Assign) and U(x.targets[0]) == "%s[%s]['name']" % (st, reg) and S(x.value) == srcname for x in ast.walk(r))
+    val_copy = any(isinstance(x, ast.Assign) and U(x.targets[0]) == "%s[%s]['value']" % (st, reg) and S(x.value) == src_state + "['value']"
+                   for x in ast.walk(r))
+    unk_src = False
+    for x in ast.walk(r):
+        if isinstance(x, ast.Assign) and U(x) == "%s[%s] = None" % (st, reg):
+            nf = C.norm_fact_nodes(x, stop=r)
+            under = any(pol and isinstance(e, ast.Compare) and isinstance(e.ops[0], ast.Is) and S(e.left) == src_state
+                        and U(e.comparators[0]) == "None" for e, pol in nf)
+            # ... and the iteration ends there (the register stays unknown: nothing is added afterwards)
+            leaves = not C.cfg_of(f).reachable(x, adds[0][0], within=loop) if adds else False
+            unk_src = unk_src or (under and leaves)
     if adds:
         cfg = C.cfg_of(f)
         ctx.check(cfg.reachable(r, adds[0][0]) and adds[0][0].lineno > r.end_lineno, "R6",
@@ -616,9 +635,25 @@ def _d1(ctx):
     ex = [c for c in ast.walk(g.node) if isinstance(c, ast.Call) and isinstance(c.func, ast.Name) and c.func.id == "exec"]
     if len(ex) != 1:
         ctx.broken("D1: get_reg_changes no longer exec()s the operation once; the snippet lint must be re-derived")
-    fmt = pm.find('M_n = "op{}".format(M_i + 1)', g.node)
-    regstate = pm.find('M_s[M_n] = {"name": M_r, "value": 0}', g.node)
-    immstate = pm.find('M_s[M_n] = {"value": M_o.value}', g.node)
+    # operand k (1-based, in written order) is handed to the snippet as opK
+    fmt = []
+    for lp in [n for n in ast.walk(g.node) if isinstance(n, ast.For) and C.is_call_to(n.iter, "enumerate")
+               and isinstance(n.target, ast.Tuple) and len(n.target.elts) == 2 and U(n.iter.args[0]).endswith(".operands")]:
+        start = C.arg_of(lp.iter, 1, "start")
+        s0 = C.const_num(start) if start is not None else 0
+        idx = U(lp.target.elts[0])
+        for c_ in ast.walk(lp):
+            if isinstance(c_, ast.Call) and isinstance(c_.func, ast.Attribute) and c_.func.attr == "format" \
+                    and isinstance(c_.func.value, ast.Constant) and c_.func.value.value == "op{}" and len(c_.args) == 1:
+                a_ = C.affine(c_.args[0])
+                if s0 is not None and set(a_) <= {idx, 1} and a_.get(idx) == 1 and s0 + a_.get(1, 0) == 1:
+                    fmt.append(c_)
+    gflow = C.flow_of(g)
+    is_op_key = lambda k: any(k is c_ or U(gflow.subst(k)) == U(c_) for c_ in fmt)
+    regstate = [n for n in ast.walk(g.node) if isinstance(n, ast.Assign) and isinstance(n.targets[0], ast.Subscript)
+                and is_op_key(n.targets[0].slice) and pm.match('{"name": M_r, "value": 0}', n.value) is not None]
+    immstate = [n for n in ast.walk(g.node) if isinstance(n, ast.Assign) and isinstance(n.targets[0], ast.Subscript)
+                and is_op_key(n.targets[0].slice) and pm.match('{"value": M_o.value}', n.value) is not None]
     if not (fmt and regstate and immstate):
         ctx.broken("D1: operand state construction in get_reg_changes changed (op{i+1}; register -> name/value 0; "
                    "immediate -> value)")
